@@ -19,8 +19,8 @@ package c14
 
 import (
 	"encoding/binary"
-	"errors"
 	"encoding/hex"
+	"errors"
 	"fmt"
 	"net"
 	"net/netip"
@@ -32,6 +32,7 @@ import (
 	"time"
 
 	"github.com/irai/packet"
+	"github.com/irai/packet/fastlog"
 	"github.com/irai/packet/handlers/icmp_spoofer"
 	"verif/harness/core"
 	"verif/harness/ndpgen"
@@ -860,6 +861,9 @@ func traceOracle(evs []event, nas []naFrame, ops []*apiOp, hostMAC []byte) (stri
 }
 
 func evalTrace(c *core.Ctx, line string) *core.Case {
+	// traces run with the handler logger at debug level (output discarded): every log line of the handler and of its
+	// spoof loops is formatted, so a panicking log call is a panic of the trace
+	icmp_spoofer.Logger6.SetLevel(fastlog.LevelDebug)
 	scn := ""
 	for _, f := range strings.Fields(line) {
 		if strings.HasPrefix(f, "scn=") {
